@@ -1279,7 +1279,13 @@ class Interp:
         if isinstance(s, ast.Pass) or isinstance(s, (ast.Import, ast.ImportFrom, ast.Global, ast.Nonlocal)):
             return [("next", None, st)]
         if isinstance(s, FUNC_TYPES):
-            return [("next", None, st.set(fr.local(s.name), self._closure_value(s, fr)))]
+            closure = self._closure_value(s, fr)
+            hook = getattr(d, "decorate_nested", None)
+            if s.decorator_list and hook is not None:
+                got = hook(self, s, closure, st, fr)
+                if got is not None:
+                    return [("raise", r.value, r.state) if r.kind == "exc" else ("next", None, r.state.set(fr.local(s.name), r.value)) for r in got]
+            return [("next", None, st.set(fr.local(s.name), closure))]
         if isinstance(s, ast.ClassDef):
             return [("next", None, st)]
         if isinstance(s, ast.Break):
@@ -1763,6 +1769,14 @@ class Interp:
         depth = caller.depth + 1 if caller is not None else 0
         if depth > self.max_depth:
             raise Undecided(f"inlining bound {self.max_depth} exceeded at {getattr(func, 'name', '<lambda>')}")
+        raw = any(n_ == "<raw>" for n_, _ in closure_env)
+        if raw:
+            closure_env = tuple(kv for kv in closure_env if kv[0] != "<raw>")
+        elif getattr(func, "decorator_list", None) and getattr(self.domain, "decorated_call", None) is not None:
+            # calling a decorated function is calling what its decorators made of it
+            got = self.domain.decorated_call(self, func, argvals, st, caller, receiver, is_method, self_value)
+            if got is not None:
+                return got
         self.functions.add(func)
         fr = Frame(func, depth, receiver if receiver is not None else (caller.receiver if caller else None), name,
                    is_method=is_method and getattr(func, "_class", None) is not None)
